@@ -10,7 +10,7 @@ from harness.lib import hx, cz, clist
 
 ID = 'C15'
 RULE = ('well-formed BED3 / BED6 / FASTQ / two-line FASTA / wrapped FASTA files of 1..5 records with ONE violation (non-numeric in an int column, '
-        'character outside the strand alphabet, record not starting with its marker, missing "+" line, different column count) '
+        'character outside the strand alphabet, record not starting with its marker, "+" line replaced or really missing, different column count) '
         'injected at every record position x every chunk size 1..size+2 and whole read x {lazy, eager} x {BytesIO reader in seek / '
         'prepend mode, real plain / .gz file through bnp.open}; plus unviolated controls. non-trivial = violation not in the first '
         'chunk (the line offset bookkeeping matters)')
@@ -57,6 +57,8 @@ def _violate(fmt, recs, r, cls):
         recs[r][0] = b'X' + recs[r][0][1:]
     elif cls == 'plus':
         recs[r][2] = b'-\n'
+    elif cls == 'plus_deleted':
+        del recs[r][2]          # the '+' line is really missing: every later line is shifted by one
     elif cls == 'ncols_more':
         recs[r][0] = recs[r][0].rstrip(b'\n') + b'\textra\n'
     elif cls == 'ncols_less':
@@ -65,7 +67,7 @@ def _violate(fmt, recs, r, cls):
     return recs
 
 
-CLASSES = {'bed3': ['int', 'ncols_more', 'ncols_less'], 'bed6': ['strand', 'int', 'ncols_less'], 'fq': ['marker', 'plus'], 'fa2': ['marker'], 'mfa': ['marker']}
+CLASSES = {'bed3': ['int', 'ncols_more', 'ncols_less'], 'bed6': ['strand', 'int', 'ncols_less'], 'fq': ['marker', 'plus', 'plus_deleted'], 'fa2': ['marker'], 'mfa': ['marker']}
 
 
 def generate(tier, seed):
@@ -88,7 +90,7 @@ def generate(tier, seed):
                     data = data[:-1]
                 expected = None
                 if cls is not None:
-                    expected = r * lines_per + (2 if cls == 'plus' else 0)
+                    expected = r * lines_per + (2 if cls in ('plus', 'plus_deleted') else 0)
                 size = len(data)
                 if tier == 'quick' and n > 2:
                     ks = sorted(set([0, 1, 2, size // n, size // n + 1, size - 1, size, size + 1] + [rng.randint(1, size + 2) for _ in range(4)]))
@@ -188,6 +190,10 @@ def distribution(cases, obs):
 def finding(case, o):
     if case['cls'] in ('ncols_more', 'ncols_less') and o.get('kind') == 'NoError':
         return 'C15-column-count-accepted'
+    if (case['cls'] == 'plus_deleted' and case['r'] == case['n'] - 1 and o.get('kind') == 'NoError'
+            and o.get('rows') == case['n'] - 1):
+        # exactly the listed failure: the three remaining lines of the last record are dropped at end of file
+        return 'C15-missing-plus-in-final-record-dropped'
     return None
 
 
